@@ -7,10 +7,10 @@ from .. import build, core
 
 # variables of drivers/c36_prog.cpp + c36_vars_a.cpp + c36_vars_b.cpp: (name, initial value, C type)
 VARS = [("a_init", 11, "int"), ("a_bss", 0, "int"), ("a_static_init", 13, "int"), ("a_static_bss", 0, "long"), ("a_dbl*2", 3, "double"),
-        ("a_arr[0]", 21, "int"), ("a_arr[1023]", 0, "int"), ("a_big_bss[0]", 0, "int"), ("a_big_bss[299999]", 0, "int"),
-        ("a_big_bss[150000]", 0, "int"),
+        ("a_arr[0]", 21, "int"), ("a_arr[last]", 0, "int"), ("a_big_bss[0]", 0, "int"), ("a_big_bss[last]", 0, "int"),
+        ("a_big_bss[middle]", 0, "int"),
         ("b_init", 17, "long"), ("b_bss", 0, "char"), ("b_static", 19, "short"), ("b_local()::v", 7, "int"), ("b_obj.x", 31, "int"),
-        ("b_big_data[69999]", 0, "int"), ("Counter::count", 41, "int"), ("(anonymous)::b_anon", 43, "int"), ("*b_ptr", 47, "int"),
+        ("b_big_data[last]", 0, "int"), ("Counter::count", 41, "int"), ("(anonymous)::b_anon", 43, "int"), ("*b_ptr", 47, "int"),
         ("c36_bcast_var", 0, "long"),
         ("main_global", 53, "int"), ("main_local()::counter", 0, "int"), ("main_array[2]", 63, "long"), ("main_pair.d", 4, "double")]
 BCAST_VAR = 19
@@ -25,11 +25,40 @@ def conv(v, ctype):
     return v
 
 
+# arrays of the programs: (name, element C type, element bytes, section); lengths depend on the size variant (C36_SCALE in c36_vars.hpp)
+ARRS = [("a_arr", "int", 4, "data"), ("a_big_bss", "int", 4, "bss"), ("b_mid_bss", "int", 4, "bss"), ("b_fs()::fs_arr", "long", 8, "bss"),
+        ("b_big_data", "int", 4, "data"), ("main_bss", "short", 2, "bss")]
+SIZES = {"s": ("c36_prog_s", [1024, 1000, 300, 100, 1500, 700]), "m": ("c36_prog_m", [1024, 3000, 1500, 200, 1500, 700]),
+         "l": ("c36_prog_l", [1024, 6000, 2500, 256, 3000, 700]), "xl": ("c36_prog", [1024, 300000, 5000, 2048, 70000, 700])}
+ARR_INIT = {0: {0: 21, 1: 22, 2: 23}, 4: {0: 1, 1: 2, 2: 3}}
+
+
+def alias(lens):
+    """scalar ids that are elements of the arrays"""
+    return {5: (0, 0), 6: (0, lens[0] - 1), 7: (1, 0), 8: (1, lens[1] - 1), 9: (1, lens[1] // 2), 15: (4, lens[4] - 1)}
+
+
+def index(p, n, esize):
+    """an element index of an array of n elements from an arbitrary integer: anywhere, the last ones, around a 4 kB boundary, the first ones"""
+    k, x = p % 4, p // 4
+    if k == 0:
+        return x % n
+    if k == 1:
+        return n - 1 - x % 4
+    if k == 2:
+        per_page = 4096 // esize
+        pages = max(1, (n - 1) // per_page)
+        return max(0, min(n - 1, (x % pages + 1) * per_page + (x // pages) % 3 - 1))
+    return x % min(n, 8)
+
+
 BLOCKING = ["B", "A", "R", "G", "X", "P", "T"]
 
 step = st.one_of(
     st.tuples(st.just("W"), st.integers(0, len(VARS) - 1), st.integers(1, 255), st.integers(0, 2000)),
     st.tuples(st.just("W"), st.sampled_from([1, 3, 7, 8, 9, 11, 13, 15, 18, 21]), st.integers(1, 255), st.integers(0, 2000)),
+    st.tuples(st.just("a"), st.sampled_from([0, 1, 1, 1, 2, 2, 3, 4, 5]), st.integers(0, 4000000), st.integers(1, 255), st.integers(0, 2000)),
+    st.tuples(st.just("a"), st.sampled_from([1, 1, 2, 3, 5]), st.integers(0, 4000000), st.integers(1, 255), st.integers(0, 2000)),
     st.tuples(st.just("C")),
     st.tuples(st.sampled_from(BLOCKING)),
     st.tuples(st.sampled_from(BLOCKING)),
@@ -42,7 +71,9 @@ step = st.one_of(
 @st.composite
 def cases(draw, maxsteps):
     return {"np": draw(st.sampled_from([2, 2, 3, 4, 4, 5, 6, 8])),
-            "priv": draw(st.sampled_from(["mmap", "mmap", "dlopen"])),
+            "priv": draw(st.sampled_from(["mmap", "mmap", "mmap", "dlopen"])),
+            "size": draw(st.sampled_from(["s", "m", "l", "xl"])),
+            "aslr": draw(st.booleans()),
             "simcomp": draw(st.booleans()),
             "steps": draw(st.lists(step, min_size=1, max_size=maxsteps))}
 
@@ -50,21 +81,26 @@ def cases(draw, maxsteps):
 class C36(core.Prop):
     id = "C36"
     ready = True
-    drivers = ["c36_prog", "c36_driver"]
-    sizes = {"quick": 300, "thorough": 8000}
+    drivers = ["c36_prog", "c36_prog_s", "c36_prog_m", "c36_prog_l", "c36_driver"]
+    sizes = {"quick": 400, "thorough": 8000}
     max_workers = 6
-    technique = ("property-based testing (Hypothesis): generated scripts for a multi-object MPI program run through the real smpi_main() path "
-                 "with privatization; per-rank model of every global")
-    rule = ("A case = 2..8 ranks, smpi/privatization in {mmap, dlopen}, smpi/simulate-computation on/off and a script of <= 40 steps "
-            "executed by every rank of drivers/c36_prog (three translation units, 24 observed globals: initialised and zero-initialised, "
-            "file statics, function-local statics, class statics, anonymous-namespace variables, a global object with a constructor, a "
-            "pointer to another global, doubles, chars, shorts, first/middle/last elements of a 1.2 MB .bss array and of 4 kB and 280 kB .data arrays): "
-            "W var mask val (the ranks of the mask write val*64+rank), C (every rank prints all its variables), and calls that switch "
-            "ranks: Barrier, Allreduce, ring Sendrecv, ring Sendrecv / Isend+Irecv+Waitall whose buffers ARE global arrays, Bcast INTO a "
-            "global, smpi_execute_flops and usleep with rank-dependent amounts, a blocking token chain, MPI_Test loops.  A final C is "
-            "appended.  Oracle: per-rank model: every value read is the last value that very rank wrote (initial value otherwise); "
-            "data received in a global buffer is the left neighbour's, the send buffer is intact.  Non-trivial: >= 2 ranks write the same "
-            "variable between two reads, with a rank-switching call between the writes and the read.  Distinct = distinct canonical JSON.")
+    technique = ("property-based testing (Hypothesis): generated scripts for multi-object MPI programs run through the real smpi_main() path "
+                 "with privatization; per-rank model of every global and of every touched array element")
+    rule = ("A case = 2..8 ranks, smpi/privatization in {mmap, dlopen}, one of four builds of drivers/c36_prog (three translation units; "
+            ".bss of ~7 kB, ~21 kB, ~37 kB or 1.2 MB, i.e. spilling more or less far past the file-backed pages of the data segment), ASLR on "
+            "or off (the fork server is started under `setarch -R`), smpi/simulate-computation on/off and a script of <= 40 steps executed "
+            "by every rank.  Observed: 24 scalars (initialised and zero-initialised, file statics, function-local statics, class statics, "
+            "anonymous-namespace variables, a global object with a constructor, a pointer to another global, doubles, chars, shorts) and "
+            "ANY element of 6 arrays (.data int arrays of 4 kB and 6..280 kB, .bss int arrays, a static .bss array of the second object, a "
+            "function-static long array, a short array of the main object): `a arr index mask val` writes val*64+rank on the ranks of the "
+            "mask at an index drawn anywhere / at the end / around a 4 kB boundary / at the start; W var mask val for the scalars; C = every "
+            "rank prints all scalars and every array element touched so far; and calls that switch ranks: Barrier, Allreduce, ring "
+            "Sendrecv, ring Sendrecv / Isend+Irecv+Waitall whose buffers ARE global arrays, Bcast INTO a global, smpi_execute_flops and "
+            "usleep with rank-dependent amounts, a blocking token chain, MPI_Test loops.  A final C is appended.  Oracle: per-rank model "
+            "(independent of where the loader puts the program): every value read is the last value that very rank wrote (initial value "
+            "otherwise); data received in a global buffer is the left neighbour's, the send buffer is intact.  Non-trivial: >= 2 ranks "
+            "write the same variable or element between two reads, with a rank-switching call between the writes and the read.  "
+            "Distinct = distinct canonical JSON.")
     assumptions = ["globals holding heap pointers (std::string, std::vector...) are out of the domain: the heap is not privatized by mmap",
                    "thread_local variables and read-only data are not observed"]
 
@@ -74,63 +110,123 @@ class C36(core.Prop):
     def fixed_cases(self, tier):
         res = []
         for priv in ("mmap", "dlopen"):
-            steps = []
-            for v in range(len(VARS)):
-                steps.append(["W", v, 255, 100 + v])
-            steps += [["B"], ["C"], ["G"], ["X"], ["O", 1], ["P"], ["C"]]
-            res.append({"np": 4, "priv": priv, "simcomp": False, "steps": steps})
+            for size in ("s", "m", "l", "xl"):
+                for aslr in (True, False):
+                    if priv == "dlopen" and not aslr:
+                        continue
+                    steps = []
+                    for v in range(len(VARS)):
+                        steps.append(["W", v, 255, 100 + v])
+                    for arr in range(len(ARRS)):
+                        for p_ in (1, 5, 2, 6, 14, 0, 400):        # last, last-1, page boundaries, first, somewhere
+                            steps.append(["a", arr, p_, 255, 300 + arr])
+                    steps += [["B"], ["C"], ["G"], ["X"], ["O", 1], ["P"], ["C"]]
+                    res.append({"np": 4, "priv": priv, "size": size, "aslr": aslr, "simcomp": False, "steps": steps})
         return res
 
     def check(self, case):
         oc = core.Outcome()
         np_ = case["np"]
-        steps = [list(s) for s in case["steps"]] + [["C"]]
-        script = "\n".join(" ".join(str(x) for x in s) for s in steps) + "\n"
+        size = case.get("size", "xl")
+        prog, lens = SIZES[size]
+        al = alias(lens)
+        # ---- the script: array indices resolved, every check followed by the read of every array element touched so far
+        steps = []
+        touched = []
+        for s_ in [list(s) for s in case["steps"]] + [["C"]]:
+            if s_[0] == "a":
+                arr = s_[1] % len(ARRS)
+                idx = index(s_[2], lens[arr], ARRS[arr][2])
+                steps.append(["a", arr, idx, s_[3], s_[4]])
+                if (arr, idx) not in touched:
+                    touched.append((arr, idx))
+            elif s_[0] == "C":
+                steps.append(["C"])
+                for arr, idx in touched[-24:]:
+                    steps.append(["q", arr, idx])
+            else:
+                steps.append(s_)
+        script = "\n".join(" ".join(str(x) for x in s_) for s_ in steps) + "\n"
         tmpdir = os.environ.get("VF_TMP") or core.tmpdir()
-        req = {"prog": build.drv("c36_prog"), "platform": "/verif/drivers/c36_platform.xml", "np": np_, "priv": case["priv"],
+        req = {"prog": build.drv(prog), "platform": "/verif/drivers/c36_platform.xml", "np": np_, "priv": case["priv"],
                "script": script, "tmpdir": tmpdir, "cfg": ["smpi/simulate-computation:%s" % ("yes" if case.get("simcomp") else "no")]}
-        r = core.serve("c36_driver", req, cpu=60, wall=600)
+        if case.get("aslr", True):
+            r = core.serve("c36_driver", req, cpu=60, wall=600)
+        else:
+            # same driver, address-space randomisation off: the loader places the program at the same addresses in every run
+            srv = core.server("c36_driver:noaslr", cmd=["setarch", os.uname().machine, "-R", build.drv("c36_driver")], env=build.runtime_env())
+            r = srv.request(__import__("json").dumps(req, separators=(",", ":")), cpu=60, wall=600)
         if r.wall_exceeded:
             raise core.Inconclusive()
-        # ---- model
+        # ---- model: scalars + array elements (some scalars ARE array elements)
         val = [[init for _, init, _ in VARS] for _ in range(np_)]
-        expectV = {}
-        expectG = {}
-        written = {}            # var -> set of ranks that wrote it since the last read
-        switched = {}           # var -> a rank-switching call happened after a write
+        arrv = [dict() for _ in range(np_)]
+
+        def aget(rk, arr, idx):
+            return arrv[rk].get((arr, idx), ARR_INIT.get(arr, {}).get(idx, 0))
+
+        expectV, expectQ, expectG = {}, {}, {}
+        written = {}            # variable or element -> set of ranks that wrote it since the last read
+        switched = {}
         nontrivial = False
-        labels = {"priv:" + case["priv"], "np=%d" % np_, "simcomp" if case.get("simcomp") else "no-simcomp"}
-        for i, s in enumerate(steps):
-            op = s[0]
+        labels = {case["priv"], "size:" + size, "np=%d" % np_, "simcomp" if case.get("simcomp") else "no-simcomp",
+                  "aslr-on" if case.get("aslr", True) else "aslr-off"}
+        if size != "s":
+            labels.add("bss-large")
+        for i, s_ in enumerate(steps):
+            op = s_[0]
             if op == "W":
-                _, var, mask, v = s
+                _, var, mask, v = s_
                 for rk in range(np_):
                     if (mask >> rk) & 1:
-                        val[rk][var] = conv(v * 64 + rk, VARS[var][2])
-                        written.setdefault(var, set()).add(rk)
-                        switched[var] = False
+                        x = conv(v * 64 + rk, VARS[var][2])
+                        if var in al:
+                            arrv[rk][al[var]] = x
+                        else:
+                            val[rk][var] = x
+                        written.setdefault(("v", var), set()).add(rk)
+                        switched[("v", var)] = False
+            elif op == "a":
+                _, arr, idx, mask, v = s_
+                name, ctype, esize, section = ARRS[arr]
+                for rk in range(np_):
+                    if (mask >> rk) & 1:
+                        arrv[rk][(arr, idx)] = conv(v * 64 + rk, ctype)
+                        written.setdefault((arr, idx), set()).add(rk)
+                        switched[(arr, idx)] = False
+                labels.add("array:" + section)
+                if section == "bss" and idx * esize >= 4096:
+                    labels.add("bss-beyond-first-page")
+                if idx == lens[arr] - 1:
+                    labels.add("array-last-element")
             elif op == "C":
                 for rk in range(np_):
-                    expectV[(rk, i)] = list(val[rk])
-                if any(len(w) >= 2 and switched.get(var) for var, w in written.items()):
+                    expectV[(rk, i)] = [aget(rk, *al[v_]) if v_ in al else val[rk][v_] for v_ in range(len(VARS))]
+                if any(len(w) >= 2 and switched.get(key) for key, w in written.items()):
                     nontrivial = True
+                    if any(len(w) >= 2 and switched.get(key) and key[0] != "v" and ARRS[key[0]][3] == "bss" and key[1] * ARRS[key[0]][2] >= 4096
+                           for key, w in written.items()):
+                        labels.add("bss-beyond-first-page:contended")
                 written = {}
+            elif op == "q":
+                for rk in range(np_):
+                    expectQ[(rk, i)] = (s_[1], s_[2], aget(rk, s_[1], s_[2]))
             else:
-                for var in written:
-                    switched[var] = True
+                for key in written:
+                    switched[key] = True
                 labels.add("op:" + op)
                 if op in ("G", "X"):
                     for rk in range(np_):
                         left = (rk + np_ - 1) % np_
                         expectG[(rk, i)] = [i * 1000 + left * 64, i * 1000 + left * 64 + NBUF - 1, left, i * 1000 + rk * 64 + 1]
                 elif op == "O":
-                    root = s[1] % np_
+                    root = s_[1] % np_
                     for rk in range(np_):
                         val[rk][BCAST_VAR] = 1000 * i + root
         oc.labels = sorted(labels)
         oc.nontrivial = nontrivial
         # ---- observations
-        gotV, gotG, done, errs, end = {}, {}, set(), [], None
+        gotV, gotG, gotQ, done, errs, end = {}, {}, {}, set(), [], None
         for line in r.out.splitlines():
             f = line.split()
             if not f:
@@ -140,6 +236,8 @@ class C36(core.Prop):
                     gotV[(int(f[1]), int(f[2]))] = [int(x) for x in f[3:]]
                 elif f[0] == "G":
                     gotG[(int(f[1]), int(f[2]))] = [int(x) for x in f[3:]]
+                elif f[0] == "Q":
+                    gotQ[(int(f[1]), int(f[2]))] = (int(f[3]), int(f[4]), int(f[5]))
                 elif f[0] == "D":
                     done.add(int(f[1]))
                 elif f[0] == "E":
@@ -148,13 +246,14 @@ class C36(core.Prop):
                     end = line
             except ValueError:
                 pass
+        where = "privatization %s, %d ranks, program %s (%s), ASLR %s" % (case["priv"], np_, prog, size, "on" if case.get("aslr", True) else "off")
         if r.rc != 0 or end is None or len(done) != np_:
             if r.rc == 64:
                 raise RuntimeError("c36_driver rejected the case: " + r.err[-800:])
             sig = "cpu-exceeded" if r.cpu_exceeded else ("crash:signal-%d" % -r.rc if r.rc < 0 else "run-failed")
             if "eadlock" in r.err:
                 sig = "deadlock"
-            oc.bad("%s:%s" % (sig, case["priv"]), "smpi_main ended with rc=%s, %d/%d ranks done; stderr tail: %s" % (r.rc, len(done), np_, r.err[-1500:]))
+            oc.bad("%s:%s" % (sig, case["priv"]), "%s: smpi_main ended with rc=%s, %d/%d ranks done; stderr tail: %s" % (where, r.rc, len(done), np_, r.err[-1500:]))
             return oc
         for e in errs:
             oc.bad("payload:" + e.split()[3], "wrong data in a heap/stack-buffer communication: %s" % e)
@@ -167,12 +266,24 @@ class C36(core.Prop):
                 if g != w:
                     others = [r2 for r2 in range(np_) if r2 != rk and expectV[(r2, i)][var] == g]
                     oc.bad("global-not-private:%s:%s" % (case["priv"], VARS[var][0]),
-                           "privatization %s, %d ranks: at step %d rank %d reads %s = %d, the last value it wrote is %d%s"
-                           % (case["priv"], np_, i, rk, VARS[var][0], g, w,
-                              " (that is what rank %s wrote)" % others if others else ""))
+                           "%s: at step %d rank %d reads %s = %d, the last value it wrote is %d%s"
+                           % (where, i, rk, VARS[var][0], g, w, " (that is what rank %s wrote)" % others if others else ""))
                     break
             if oc.violations:
-                break
+                return oc
+        for (rk, i), (arr, idx, w) in sorted(expectQ.items()):
+            got = gotQ.get((rk, i))
+            if got is None or got[:2] != (arr, idx):
+                oc.bad("not-executed", "rank %d did not print element %d of array %d at step %d (%s)" % (rk, idx, arr, i, got))
+                return oc
+            if got[2] != w:
+                name, ctype, esize, section = ARRS[arr]
+                others = [r2 for r2 in range(np_) if r2 != rk and expectQ[(r2, i)][2] == got[2]]
+                oc.bad("global-not-private:%s:%s%s" % (case["priv"], name, ":beyond-4k" if idx * esize >= 4096 else ""),
+                       "%s: at step %d rank %d reads %s[%d] = %d (%s array of %d %ss, byte offset %d), the last value it wrote is %d%s"
+                       % (where, i, rk, name, idx, got[2], section, lens[arr], ctype, idx * esize, w,
+                          " (that is what rank %s wrote)" % others if others else ""))
+                return oc
         for (rk, i), want in sorted(expectG.items()):
             got = gotG.get((rk, i))
             if got is None:
@@ -180,8 +291,8 @@ class C36(core.Prop):
                 return oc
             if got != want:
                 oc.bad("global-buffer:%s:%s" % (case["priv"], steps[i][0]),
-                       "privatization %s, %d ranks, step %d (%s): rank %d received [first, last, status source] = %s and its send buffer "
-                       "holds %d; expected %s from its left neighbour and %d" % (case["priv"], np_, i, "Sendrecv" if steps[i][0] == "G" else
+                       "%s, step %d (%s): rank %d received [first, last, status source] = %s and its send buffer "
+                       "holds %d; expected %s from its left neighbour and %d" % (where, i, "Sendrecv" if steps[i][0] == "G" else
                                                                                  "Isend/Irecv/Waitall", rk, got[:3], got[3], want[:3], want[3]))
                 break
         return oc
